@@ -1218,6 +1218,11 @@ class HeaderSet(cabc.MutableSet[str]):
     def __bool__(self) -> bool:
         return bool(self._set)
 
+    def __copy__(self) -> te.Self:
+        # A copy has its own containers and is detached from the object the
+        # original reports changes to.
+        return self.__class__(self._headers)
+
     def __str__(self) -> str:
         return self.to_header()
 
